@@ -201,6 +201,11 @@ def check_random(case):
             if isinstance(r, Raised):
                 raise Failure('raised:%s' % r.cls, 'dropna raised %r' % r.exc, r.where)
             obs.expect_series(r, [il[i] for i in range(n) if not miss[i]], [vals[i] for i in range(n) if not miss[i]], 'Series.dropna')
+            # only rows are removed: name, dtype and the class of the index stay (also when no row is left)
+            if not eq(obs.canon_name(r.name), obs.canon_name(s.name)) or r.values.dtype != s.values.dtype or type(r.index) is not type(s.index):
+                raise Failure('kept-metadata', 'Series.dropna of %d rows (%d kept): name %r -> %r, dtype %s -> %s, index %s -> %s' % (
+                    n, n - sum(miss), s.name, r.name, s.values.dtype, r.values.dtype, type(s.index).__name__, type(r.index).__name__))
+            classes.append('dropna-kept:%s' % ('none' if all(miss) and n else 'some'))
         elif op == 'fillna_el':
             v = case['fill']
             if v is None:
